@@ -34,7 +34,7 @@ for blk in rep.split('=== ')[1:]:
     body = '\n'.join(rest)
     if 'NOT-CONFIRMED' in body or 'CONFIRMED' not in body:
         print("skip (not confirmed)", P, k); continue
-    caught = sorted(set(re.findall(r'violation in (C\d\d\.[A-Za-z0-9_-]+):', body)))
+    caught = sorted(set(re.findall(r'violation in (C\d\d\.[A-Za-z0-9_-]+):', body)) | set(re.findall(r'replay/C\d\d/(C\d\d\.[A-Za-z0-9_-]+?)-\d+\.json', body)))
     sid = f"{P}-r2-{names[P+'-'+k]}"
     src = f"/tmp/seed2out/{P}/{k}"; dst = f"/verif/seeded/{sid}"
     os.makedirs(dst, exist_ok=True)
